@@ -97,7 +97,7 @@ def locusLength (f : Fields) (p : Bytes) : Int := if p.isEmpty then contigLen f 
 
 /-- the header part of the domain -/
 def headerOk (f : Fields) : Bool :=
-  regionOk f && noCR f.definition && noEOL (accessionLine f) && noEOL f.version &&
+  noCR f.definition && noEOL (accessionLine f) && noEOL f.version &&
   f.dblink.all pairOk && distinctKeys f.dblink && listOk f.keywords && noCR (wrapSpace f.species) &&
   organismOk f.organism && taxonOk f.taxon && f.references.all referenceOk && f.comments.all noCR &&
   f.extra.all fun e => WritableExtra e.1 e.2 && extraNameOk e.1
@@ -108,14 +108,15 @@ def headerOk (f : Fields) : Bool :=
 writable one, printable residues, fewer than 10^9 of them. -/
 def Writable (reg : Registry) (r : Record) (p : Bytes) : Bool :=
   let f := r.fields
-  locusOk f (locusLength f p) && isMolecule f.molecule && headerOk f &&
+  locusOk f (locusLength f p) && decide (Origin.toOriginLength (locusLength f p) ≤ 9223372036854775807) &&
+  isMolecule f.molecule && headerOk f &&
   (match r.table with | [] => true | _ :: _ => tableWritable reg r.table) &&
   (if f.contigAcc.isEmpty then decide (f.contigHead = 0 ∧ f.contigTail = 0) else contigOk f) &&
   p.all Origin.isBase && decide (p.length < 10 ^ 9)
 
 theorem headerSecs_ok (f : Fields) (L : Int) (h : headerOk f = true) : ∀ x ∈ headerSecs f, SecOK L x := by
   simp only [headerOk, Bool.and_eq_true, List.all_eq_true] at h
-  obtain ⟨⟨⟨⟨⟨⟨⟨⟨⟨⟨⟨⟨_, hdef⟩, hacc⟩, hver⟩, hdb⟩, _⟩, hkw⟩, hsp⟩, horg⟩, htax⟩, href⟩, hcom⟩, hext⟩ := h
+  obtain ⟨⟨⟨⟨⟨⟨⟨⟨⟨⟨⟨hdef, hacc⟩, hver⟩, hdb⟩, _⟩, hkw⟩, hsp⟩, horg⟩, htax⟩, href⟩, hcom⟩, hext⟩ := h
   intro x hx
   simp only [headerSecs, List.mem_append, List.mem_cons, List.mem_map, List.not_mem_nil, or_false] at hx
   rcases hx with (((((hx | hx | hx) | hx) | (hx | hx)) | hx) | hx) | hx
@@ -184,20 +185,20 @@ namespace Gts.GenBank
 open Gts.Pars
 
 theorem writable_parts (reg : Registry) (r : Record) (p : Bytes) (hw : Writable reg r p = true) :
-    locusOk r.fields (locusLength r.fields p) = true ∧ isMolecule r.fields.molecule = true ∧
+    locusOk r.fields (locusLength r.fields p) = true ∧
+    Origin.toOriginLength (locusLength r.fields p) ≤ 9223372036854775807 ∧ isMolecule r.fields.molecule = true ∧
     headerOk r.fields = true ∧
     (match r.table with | [] => true | _ :: _ => tableWritable reg r.table) = true ∧
     (if r.fields.contigAcc.isEmpty then decide (r.fields.contigHead = 0 ∧ r.fields.contigTail = 0)
       else contigOk r.fields) = true ∧
     p.all Origin.isBase = true ∧ p.length < 10 ^ 9 := by
   simp only [Writable, Bool.and_eq_true, decide_eq_true_eq] at hw
-  obtain ⟨⟨⟨⟨⟨⟨h1, h2⟩, h3⟩, h4⟩, h5⟩, h6⟩, h7⟩ := hw
-  exact ⟨h1, h2, h3, h4, h5, h6, h7⟩
+  obtain ⟨⟨⟨⟨⟨⟨⟨h1, h1'⟩, h2⟩, h3⟩, h4⟩, h5⟩, h6⟩, h7⟩ := hw
+  exact ⟨h1, h1', h2, h3, h4, h5, h6, h7⟩
 
 theorem headerOk_refs (f : Fields) (h : headerOk f = true) :
-    regionOk f = true ∧ ∀ x ∈ f.references, ∀ v, x.pubmed = some v → noEOL v = true := by
+    ∀ x ∈ f.references, ∀ v, x.pubmed = some v → noEOL v = true := by
   simp only [headerOk, Bool.and_eq_true, List.all_eq_true] at h
-  refine ⟨h.1.1.1.1.1.1.1.1.1.1.1.1, ?_⟩
   intro x hx v hv
   have := h.1.1.2 x hx
   simp only [referenceOk, Bool.and_eq_true] at this
@@ -213,11 +214,11 @@ theorem write_eq (reg : Registry) (r : Record) (p : Bytes) (ho : r.origin = .res
       write reg r = .ok (locusLine r.fields (locusLength r.fields p) ++ 10 ::
         (secsText (headerSecs r.fields) ++ (bs "FEATURES             Location/Qualifiers\n" ++ (tt ++ 10 ::
           (secsText (tailSecs r.fields p) ++ bs "//\n")))))) := by
-  obtain ⟨hr, hp⟩ := headerOk_refs r.fields hh
+  have hp := headerOk_refs r.fields hh
   obtain ⟨f, tab, org⟩ := r
-  simp only at ho hh hr hp ⊢
+  simp only at ho hh hp ⊢
   subst ho
-  have hhead := headerText_eq f (locusLength f p) hr hp
+  have hhead := headerText_eq f (locusLength f p) hp
   have htail := tailSecs_text f p hlen
   have hL : (if p = [] then contigLen f else ((p.length : Nat) : Int)) = locusLength f p := by
     unfold locusLength
